@@ -76,10 +76,61 @@ def observe_case(case, workdir):
         os.remove(path)
 
 
+def observe_dense(case, workdir):
+    """a document with fewer than 255 terms and more than 256 is_a edges (every term has up to three parents), through both
+    loaders and their default graph factory: the parents / children of every term and the ancestors of some are compared
+    with the document itself - the property's own oracle, no model"""
+    import random
+    rng = random.Random(case['seed'])
+    n, pur = case['n'], 'http://purl.obolibrary.org/obo/HP_%07d'
+    ids = rng.sample(range(1, 9000), n)
+    parents = {ids[0]: []}
+    for k in range(1, n):
+        parents[ids[k]] = sorted(rng.sample(ids[:k], min(k, 3)))
+    nodes = [{'id': pur % i, 'lbl': 't%d' % i, 'type': 'CLASS'} for i in ids]
+    edges = [{'sub': pur % c, 'pred': 'is_a', 'obj': pur % p} for c in ids for p in parents[c]]
+    rng.shuffle(edges)
+    path = os.path.join(workdir, 'dense%d.json' % os.getpid())
+    with open(path, 'w', encoding='utf-8') as fh:
+        json.dump({'graphs': [{'id': 'x', 'meta': {}, 'nodes': nodes, 'edges': edges}]}, fh)
+    cur = lambda i: 'HP:%07d' % i       # noqa: E731
+    children = {i: sorted(c for c in ids if i in parents[c]) for i in ids}
+
+    def closure(i):
+        seen, todo = set(), list(parents[i])
+        while todo:
+            x = todo.pop()
+            if x not in seen:
+                seen.add(x)
+                todo += parents[x]
+        return sorted(seen)
+    mism = []
+    try:
+        for loader in (hpotk.load_minimal_ontology, hpotk.load_ontology):
+            g = loader(path).graph
+            for i in ids:
+                got_p = sorted(t.value for t in g.get_parents(cur(i)))
+                got_c = sorted(t.value for t in g.get_children(cur(i)))
+                if got_p != [cur(x) for x in parents[i]]:
+                    mism.append([loader.__name__, 'parents', cur(i), got_p, [cur(x) for x in parents[i]]])
+                if got_c != [cur(x) for x in children[i]]:
+                    mism.append([loader.__name__, 'children', cur(i), got_c, [cur(x) for x in children[i]]])
+            for i in ids[-12:]:
+                got = sorted(t.value for t in g.get_ancestors(cur(i)))
+                if got != [cur(x) for x in closure(i)]:
+                    mism.append([loader.__name__, 'ancestors', cur(i), got[:6], [cur(x) for x in closure(i)][:6]])
+    finally:
+        os.remove(path)
+    return {'nodes': n, 'edges': len(edges), 'n_mismatches': len(mism), 'mismatches': mism[:3]}
+
+
 def observe(payload):
     res = []
     for case in payload['cases']:
         try:
+            if case.get('kind') == 'dense':
+                res.append(observe_dense(case, payload['workdir']))
+                continue
             res.append(observe_case(case, payload['workdir']))
         except Exception as e:
             res.append({'crash': exn_name(e) + ': ' + str(e)[:300]})
